@@ -129,19 +129,20 @@ theorem split_uniq {q : List Action} (hu : q.Pairwise Rel) {a : Action} (ha : a 
     rw [List.pairwise_append, List.pairwise_cons] at hu
     exact hu.2.1.1 b hb
 
-theorem findObst_runPasses_none (sc : Scene) (q : List Action) (id : Nat)
+theorem findObst_runPasses_none' (sc : Scene) (q l : List Action) (hp : l.Perm q) (id : Nat)
     (h : ∀ b ∈ q, b.isConn = true ∨ b.id ≠ id) :
-    findObst (runPasses sc (sortActions q)) id = findObst sc id := by
-  have h' : ∀ b ∈ sortActions q, b.isConn = true ∨ b.id ≠ id := fun b hb => h b (mem_sort.1 hb)
+    findObst (runPasses sc l) id = findObst sc id := by
+  have h' : ∀ b ∈ l, b.isConn = true ∨ b.id ≠ id := fun b hb => h b (hp.mem_iff.1 hb)
   unfold runPasses
   rw [findObst_fold3, findObst_fold2, findObst_fold1]
   rw [fold_noop (fun a => f1 a id) _ _ (fun b hb y => f1_noop b id (h' b hb) y)]
   rw [fold_noop (fun a => f2 a id) _ _ (fun b hb y => f2_noop b id (h' b hb) y)]
 
-theorem findObst_runPasses_some (sc : Scene) (q : List Action) (hu : q.Pairwise Rel) (a : Action)
-    (ha : a ∈ q) (hc : a.isConn = false) :
-    findObst (runPasses sc (sortActions q)) a.id = f2 a a.id (f1 a a.id (findObst sc a.id)) := by
-  obtain ⟨l1, l2, hq, h1, h2⟩ := split_uniq (sort_uniq hu) (mem_sort.2 ha)
+theorem findObst_runPasses_some' (sc : Scene) (q l : List Action) (hp : l.Perm q) (hu : q.Pairwise Rel)
+    (a : Action) (ha : a ∈ q) (hc : a.isConn = false) :
+    findObst (runPasses sc l) a.id = f2 a a.id (f1 a a.id (findObst sc a.id)) := by
+  have hul : l.Pairwise Rel := (List.Perm.pairwise_iff (fun h => Rel.symm h) hp).2 hu
+  obtain ⟨l1, l2, hq, h1, h2⟩ := split_uniq hul (hp.mem_iff.2 ha)
   have n1 : ∀ b ∈ l1, b.isConn = true ∨ b.id ≠ a.id := by
     intro b hb
     by_cases hbc : b.isConn = true
@@ -159,18 +160,19 @@ theorem findObst_runPasses_some (sc : Scene) (q : List Action) (hu : q.Pairwise 
   rw [fold_single (fun a' => f2 a' a.id) l1 l2 a _ (fun b hb y => f2_noop b _ (n1 b hb) y)
         (fun b hb y => f2_noop b _ (n2 b hb) y)]
 
-theorem findConn_runPasses_none (sc : Scene) (q : List Action) (c : Nat)
+theorem findConn_runPasses_none' (sc : Scene) (q l : List Action) (hp : l.Perm q) (c : Nat)
     (h : ∀ b ∈ q, b.isConn = false ∨ b.id ≠ c) :
-    findConn (runPasses sc (sortActions q)) c = findConn sc c := by
-  have h' : ∀ b ∈ sortActions q, b.isConn = false ∨ b.id ≠ c := fun b hb => h b (mem_sort.1 hb)
+    findConn (runPasses sc l) c = findConn sc c := by
+  have h' : ∀ b ∈ l, b.isConn = false ∨ b.id ≠ c := fun b hb => h b (hp.mem_iff.1 hb)
   unfold runPasses
   rw [findConn_fold3, findConn_fold2, findConn_fold1]
   rw [fold_noop (fun a => g3 a c) _ _ (fun b hb y => g3_noop b c (h' b hb) y)]
 
-theorem findConn_runPasses_some (sc : Scene) (q : List Action) (hu : q.Pairwise Rel) (a : Action)
-    (ha : a ∈ q) (hc : a.isConn = true) :
-    findConn (runPasses sc (sortActions q)) a.id = g3 a a.id (findConn sc a.id) := by
-  obtain ⟨l1, l2, hq, h1, h2⟩ := split_uniq (sort_uniq hu) (mem_sort.2 ha)
+theorem findConn_runPasses_some' (sc : Scene) (q l : List Action) (hp : l.Perm q) (hu : q.Pairwise Rel)
+    (a : Action) (ha : a ∈ q) (hc : a.isConn = true) :
+    findConn (runPasses sc l) a.id = g3 a a.id (findConn sc a.id) := by
+  have hul : l.Pairwise Rel := (List.Perm.pairwise_iff (fun h => Rel.symm h) hp).2 hu
+  obtain ⟨l1, l2, hq, h1, h2⟩ := split_uniq hul (hp.mem_iff.2 ha)
   have n1 : ∀ b ∈ l1, b.isConn = false ∨ b.id ≠ a.id := by
     intro b hb
     by_cases hbc : b.isConn = false
@@ -186,6 +188,25 @@ theorem findConn_runPasses_some (sc : Scene) (q : List Action) (hu : q.Pairwise 
   rw [fold_single (fun a' => g3 a' a.id) l1 l2 a _ (fun b hb y => g3_noop b _ (n1 b hb) y)
         (fun b hb y => g3_noop b _ (n2 b hb) y)]
 
+theorem findObst_runPasses_none (sc : Scene) (q : List Action) (id : Nat)
+    (h : ∀ b ∈ q, b.isConn = true ∨ b.id ≠ id) :
+    findObst (runPasses sc (sortActions q)) id = findObst sc id :=
+  findObst_runPasses_none' sc q _ (sortActions_perm q) id h
+
+theorem findObst_runPasses_some (sc : Scene) (q : List Action) (hu : q.Pairwise Rel) (a : Action)
+    (ha : a ∈ q) (hc : a.isConn = false) :
+    findObst (runPasses sc (sortActions q)) a.id = f2 a a.id (f1 a a.id (findObst sc a.id)) :=
+  findObst_runPasses_some' sc q _ (sortActions_perm q) hu a ha hc
+
+theorem findConn_runPasses_none (sc : Scene) (q : List Action) (c : Nat)
+    (h : ∀ b ∈ q, b.isConn = false ∨ b.id ≠ c) :
+    findConn (runPasses sc (sortActions q)) c = findConn sc c :=
+  findConn_runPasses_none' sc q _ (sortActions_perm q) c h
+
+theorem findConn_runPasses_some (sc : Scene) (q : List Action) (hu : q.Pairwise Rel) (a : Action)
+    (ha : a ∈ q) (hc : a.isConn = true) :
+    findConn (runPasses sc (sortActions q)) a.id = g3 a a.id (findConn sc a.id) :=
+  findConn_runPasses_some' sc q _ (sortActions_perm q) hu a ha hc
 
 theorem no_obst_act {q : List Action} {id : Nat} (hex : ¬∃ a ∈ q, a.isConn = false ∧ a.id = id) :
     ∀ b ∈ q, b.isConn = true ∨ b.id ≠ id := by
@@ -277,5 +298,26 @@ theorem inv_processActions (st : State) (h : Inv st) : Inv (processActions st) :
     rw [findObst_runPasses_none _ _ _ hno] at ho
     have := h.inactiveAdd id o ho hact
     simp [hasAct, findAct_none_of_no .add (by decide) hno] at this
+
+/-- the processing ORDER of a duplicate-free queue is irrelevant for the resulting scene: any
+    permutation of the queue (in particular the unsorted queue itself) yields the same look-ups as the
+    sorted one. (The sort matters only for the order of visibility-graph updates, not modelled.) -/
+theorem runPasses_perm (sc : Scene) (q l : List Action) (hp : l.Perm q) (hu : q.Pairwise Rel) :
+    view (runPasses sc l) = view (runPasses sc (sortActions q)) := by
+  apply AScene.ext'
+  · intro id
+    simp only [view]
+    by_cases hex : ∃ a ∈ q, a.isConn = false ∧ a.id = id
+    · obtain ⟨a, ha, hc, rfl⟩ := hex
+      rw [findObst_runPasses_some' sc q l hp hu a ha hc, findObst_runPasses_some sc q hu a ha hc]
+    · have hno := no_obst_act hex
+      rw [findObst_runPasses_none' sc q l hp id hno, findObst_runPasses_none sc q id hno]
+  · intro c
+    simp only [view]
+    by_cases hex : ∃ a ∈ q, a.isConn = true ∧ a.id = c
+    · obtain ⟨a, ha, hc, rfl⟩ := hex
+      rw [findConn_runPasses_some' sc q l hp hu a ha hc, findConn_runPasses_some sc q hu a ha hc]
+    · have hno := no_conn_act hex
+      rw [findConn_runPasses_none' sc q l hp c hno, findConn_runPasses_none sc q c hno]
 
 end AdaptaVerif.Lemmas.ActionQueue
